@@ -176,6 +176,7 @@ def generate(rng: random.Random, tier: str) -> dict:
         "nh": nh,
         "nf": nf,
         "writer": rng.random() > 0.03,
+        "payload": rng.choice(["bytes", "bytes", "bytes", "bytearray", "bytearray-reused"]),
         "transport": rng.choice([0.0, 0.0, 0.2, 0.6, 1.0]),
         "policy": draw_policy(rng, groups=list(range(nsub)), horizon=4 * total_p),
     }
@@ -195,18 +196,31 @@ def generate(rng: random.Random, tier: str) -> dict:
 _RUN_COUNTER = [0]
 
 
-def _mk_chunks(subs) -> Tuple[List[List[List[Tuple[bytes, int]]]], bytes, List[Tuple[int, int]]]:
+def payload(b: bytes, kind: str, pool: Dict[bytes, bytearray]) -> Any:
+    """The chunk as the producer hands it over: immutable bytes, a fresh bytearray, or one
+    bytearray object handed over every time the same content comes up (zero-size chunks do)."""
+    if kind == "bytes":
+        return b
+    if kind == "bytearray-reused":
+        if b not in pool:
+            pool[b] = bytearray(b)
+        return pool[b]
+    return bytearray(b)
+
+
+def _mk_chunks(subs, kind: str = "bytes") -> Tuple[List[List[List[Tuple[Any, int]]]], bytes, List[Tuple[int, int]]]:
     cid = 0
     out = []
     stream = bytearray()
     obs = []
+    pool: Dict[bytes, bytearray] = {}
     for parts in subs:
         sp = []
         for sizes in parts:
             cc = []
             for sz in sizes:
                 b = chunk_bytes(cid, sz)
-                cc.append((b, cid))
+                cc.append((payload(b, kind, pool), cid))
                 stream += b
                 obs.append((sz, cid))
                 cid += 1
@@ -268,9 +282,10 @@ def execute_a(record: dict, rng: Optional[random.Random]) -> Outcome:
     nh, nf = cfg.get("nh"), cfg.get("nf")
     hdr = HdrFtr("h", nh, wid) if nh else None
     ftr = HdrFtr("f", nf, wid) if nf else None
-    chunks, stream, exp_obs = _mk_chunks(subs)
+    chunks, stream, exp_obs = _mk_chunks(subs, cfg.get("payload", "bytes"))
     full = (b"H" * nh if nh else b"") + stream + (b"F" * nf if nf else b"")
     probes = {
+        "bytearray_payloads": int(cfg.get("payload", "bytes") != "bytes"),
         "merge_rhs_started": 0,
         "merge_lhs_moved_to_left_data": 0,
         "final_partition_wrote_then_received_data": 0,
@@ -550,6 +565,10 @@ def candidates(record: dict) -> Iterable[dict]:
                         c["workload"]["subs"][s][p][j] = nsz
                         yield c
     # configuration knobs to their defaults
+    if cfg.get("payload", "bytes") != "bytes":
+        c = copy.deepcopy(record)
+        c["config"]["payload"] = "bytes"
+        yield c
     for k, simple in (("nh", None), ("nf", None), ("wpc", 1), ("min_part", 1), ("transport", 0.0), ("mn", 1), ("mn", 10)):
         if cfg.get(k) != simple:
             c = copy.deepcopy(record)
